@@ -632,6 +632,77 @@ func c16Body(s *simkit.Sim, rc *simkit.RunCtx) {
 	if s.Failed() {
 		return
 	}
+	// ---- the server stops and starts again on the same database: list, seed and timestamps go on ----
+	if s.D.Decide("server-restart-same-db", 3) == 2 {
+		s.Enable(false)
+		w.Stop("nodea", s.D.Decide("server-restart-crash", 2) == 1)
+		_, rerr := w.StartNode(mk("nodea", true))
+		s.Enable(true)
+		if rerr != nil {
+			s.Fail("C16.harness", "restart", "%v", rerr)
+			return
+		}
+		s.Faults.Inc("server-restart-same-database")
+		// registrations after the restart, and polls
+		for _, sub := range []int{s.D.Decide("restart-reg", 3), s.D.Decide("restart-reg", 3)} {
+			clients[subjects[sub].node].Call("POST", "/internal/discovery/v1/sim-svc/"+subjects[sub].subject, `{"registrationParameters":{"k":"after-restart"}}`)
+			s.Advance(time.Duration(1+s.D.Decide("restart-gap", refresh)) * time.Second)
+		}
+		s.Advance(time.Duration(5*refresh) * time.Second)
+		converged("after-server-restart", []string{"nodeb", "nodec"})
+		if s.Failed() {
+			return
+		}
+	}
+	// ---- verification outage on a client: what it could not verify itself is not in its search results ----
+	if s.D.Decide("verification-outage", 3) == 2 {
+		// two subjects of nodeb register anew; from then on their DID documents cannot be fetched, so nodec's client
+		// stores both entries unverified; then one of the two becomes reachable again
+		subA, subB := subjects[0], subjects[1]
+		pathOf := func(d string) string { return "/iam/" + d[strings.LastIndex(d, ":")+1:] + "/did.json" }
+		mu.Lock()
+		nBefore := len(regs)
+		mu.Unlock()
+		for _, sub := range []struct{ node, subject, did string }{subA, subB} {
+			clients[sub.node].Call("POST", "/internal/discovery/v1/sim-svc/"+sub.subject, `{"registrationParameters":{"k":"outage"}}`)
+		}
+		newID := map[string]string{}
+		mu.Lock()
+		for _, r := range regs[nBefore:] {
+			newID[r.Signer] = r.ID
+		}
+		mu.Unlock()
+		if newID[subA.did] != "" && newID[subB.did] != "" {
+			unreachable := map[string]bool{pathOf(subA.did): true, pathOf(subB.did): true}
+			w.HTTP.LoseIf = func(req *http.Request) bool { return req.Method == "GET" && unreachable[req.URL.Path] }
+			s.Faults.Inc("did-document-unreachable")
+			s.Advance(time.Duration(refresh+5) * time.Second) // nodec polls and cannot verify either
+			failing, healed := subA, subB
+			if s.D.Decide("outage-which-heals", 2) == 1 {
+				failing, healed = subB, subA
+			}
+			delete(unreachable, pathOf(healed.did))
+			s.Advance(time.Duration(3*refresh) * time.Second) // background validation runs
+			got, err := searchIDs(clients["nodec"], true)
+			if err != nil {
+				s.Fail("C16.harness", "search", "%v", err)
+				return
+			}
+			if got[newID[failing.did]] {
+				s.Fail("C16.search", "unverified-entry-returned", "nodec: search returns %s, which this client was never able to verify (the signer's DID document has been unreachable since before the entry was fetched)", newID[failing.did])
+				return
+			}
+			if got[newID[healed.did]] {
+				s.Probes.Inc("entry-validated-in-the-background-after-outage")
+			}
+			w.HTTP.LoseIf = nil
+			s.Advance(time.Duration(3*refresh) * time.Second)
+			converged("after-verification-outage", []string{"nodeb", "nodec"})
+			if s.Failed() {
+				return
+			}
+		}
+	}
 	// ---- server reset: new seed, clients start over ----
 	if s.D.Decide("server-reset", 3) == 2 {
 		sample.Reset = true
